@@ -9,6 +9,7 @@ from vf import universe_d  # noqa: F401  (registers group D zones)
 from vf import universe_e  # noqa: F401  (registers group E zones)
 from vf import universe_f  # noqa: F401  (registers group F zones)
 from vf import universe_g  # noqa: F401  (registers group G zones)
+from vf import universe_h  # noqa: F401  (registers group H zones)
 from vf.prng import mix
 
 GROUP_B = ("Z5", "Z6", "Z7", "Z8")
@@ -17,22 +18,23 @@ GROUP_D = ("Z10", "Z11", "Z12")
 GROUP_E = ("Z13", "Z14", "Z15")
 GROUP_F = ("Z16", "Z17", "Z18", "Z19")
 GROUP_G = ("Z20",)
-GROUP_MODULES = {"B": universe_b, "C": universe_c, "D": universe_d, "E": universe_e, "F": universe_f, "G": universe_g}
+GROUP_H = ("Z21",)
+GROUP_MODULES = {"B": universe_b, "C": universe_c, "D": universe_d, "E": universe_e, "F": universe_f, "G": universe_g, "H": universe_h}
 FX_Z7 = 24000  # documents of Z7 whose fix runs are observed by the parser-level monitors
 
-QUICK = {"Z2": 24000, "Z3": 5000, "Z4": 5000, "Z5": 12000, "Z7": 4000, "Z8": 4000, "Z9": 6000, "Z10": 6000, "Z11": 4000, "Z12": 3000, "Z13": 2500, "Z14": 1568, "Z15": 1944, "Z16": 1512, "Z17": 944, "Z18": 864, "Z19": 2880, "Z20": 2000}
+QUICK = {"Z2": 24000, "Z3": 5000, "Z4": 5000, "Z5": 12000, "Z7": 4000, "Z8": 4000, "Z9": 6000, "Z10": 6000, "Z11": 4000, "Z12": 3000, "Z13": 2500, "Z14": 1568, "Z15": 1944, "Z16": 1512, "Z17": 944, "Z18": 864, "Z19": 2880, "Z20": 2000, "Z21": 2000}
 
 
-def plan_docs(tier, seed, complete=False, quick=None, zones=("Z1", "Z2", "Z3", "Z4", "Z5", "Z6", "Z7", "Z8", "Z9", "Z10", "Z11", "Z12", "Z13", "Z14", "Z15", "Z16", "Z17", "Z18", "Z19", "Z20"), z1_all=True, limit=None, check=None, force_b=False, ranges=None, fx=0):
+def plan_docs(tier, seed, complete=False, quick=None, zones=("Z1", "Z2", "Z3", "Z4", "Z5", "Z6", "Z7", "Z8", "Z9", "Z10", "Z11", "Z12", "Z13", "Z14", "Z15", "Z16", "Z17", "Z18", "Z19", "Z20", "Z21"), z1_all=True, limit=None, check=None, force_b=False, ranges=None, fx=0):
     quick = quick or QUICK
     items = []
     zinfo = {}
     for z in zones:
-        grp = "B" if z in GROUP_B else "C" if z in GROUP_C else "D" if z in GROUP_D else "E" if z in GROUP_E else "F" if z in GROUP_F else "G" if z in GROUP_G else "A"
+        grp = "B" if z in GROUP_B else "C" if z in GROUP_C else "D" if z in GROUP_D else "E" if z in GROUP_E else "F" if z in GROUP_F else "G" if z in GROUP_G else "H" if z in GROUP_H else "A"
         only = os.environ.get("VERIF_GROUP")
         if only and only != grp and not (force_b and not only):
             continue
-        if not force_b or grp in ("C", "D", "E", "F", "G"):
+        if not force_b or grp in ("C", "D", "E", "F", "G", "H"):
             if grp != "A" and not only and not group_active(check, grp):
                 continue
         n = U.size(z)
@@ -75,7 +77,7 @@ def group_active(check, grp):
 
 def only_group_b():
     """True while a later group's baseline is being built (the group A extras are then left out)."""
-    return os.environ.get("VERIF_GROUP") in ("B", "C", "D", "E", "F", "G")
+    return os.environ.get("VERIF_GROUP") in ("B", "C", "D", "E", "F", "G", "H")
 
 
 def item_doc(item):
